@@ -1492,7 +1492,32 @@ where
                 } else {
                     Cow::Owned(env::current_dir()?.join(dname))
                 };
-                helpers::normpath(&dname).into_owned()
+                // The directory does not exist (yet: the target's script may be about to
+                // create it).  Resolve as much of it as does exist -- symbolic links above
+                // the missing part -- and keep the rest as written, so that the name does
+                // not change once the directory is there.  (Cleaning the whole path
+                // lexically gave "link/new/x" before and "real/new/x" after the first
+                // build: two records for one target, the second one taken for a source.)
+                let dname = helpers::normpath(&dname).into_owned();
+                let mut missing: Vec<&OsStr> = Vec::new();
+                let mut existing: &Path = &dname;
+                loop {
+                    match existing.canonicalize() {
+                        Ok(mut real) => {
+                            for c in missing.iter().rev() {
+                                real.push(c);
+                            }
+                            break real;
+                        }
+                        Err(_) => match (existing.parent(), existing.file_name()) {
+                            (Some(parent), Some(name)) => {
+                                missing.push(name);
+                                existing = parent;
+                            }
+                            _ => break dname.clone(),
+                        },
+                    }
+                }
             }
             Err(e) => return Err(e),
         };
